@@ -150,7 +150,7 @@ Theorem C01_prec_decl_stmt_parses :
 Proof. exact decl_stmt_parses. Qed.
 Print Assumptions C01_prec_decl_stmt_parses.
 
-(* ---------- the parseSlice defect ---------- *)
+(* ---------- the parseSlice defect (fixed in /repo by commit 16971a1; e_fix_slice = false is the code before it) ---------- *)
 Definition env_code : env :=
   {| e_funcs := [(s_ "print", false)]; e_vars := [s_ "arr"; s_ "a"; s_ "b"; s_ "c"];
      e_tyerr := fun _ _ _ => false; e_fix_slice := false |}.
@@ -164,7 +164,7 @@ Definition slice_witness : list token :=
    mk T_RBRACKET; mk T_WS; mk T_MINUS; tk T_NUM_LIT "3"].
 Definition slice_tree : tree := TSlice (TVar (s_ "arr")) (Some (TNum (s_ "0"))) (Some (TNum (s_ "1"))).
 
-(* As the code is, whitespace after a slice does not end a call argument
+(* Before commit 16971a1 (e_fix_slice = false), whitespace after a slice did not end a call argument
    (§Horizontal Whitespace: WS separates arguments; rule 9 allows WS only
    WITHIN the slice brackets): `print arr[0:1] -3` becomes ONE argument
    arr[0:1] - 3 (then rejected by the type checker) instead of two.  With the
